@@ -548,6 +548,9 @@ pub open spec fn merged_from(m: ControlFlowGraph, g: ControlFlowGraph) -> bool {
     &&& m.entry == g.entry
     &&& m.next_index == g.next_index
     &&& forall|k: usize| #![trigger m.graph.vertices@.contains_key(k)] m.graph.vertices@.contains_key(k) ==> g.graph.vertices@.contains_key(k)
+    // unit C15's trace theorem of `merge`: the same execution traces from the entry (operations, addresses, guards taken), in both directions
+    &&& m.exec_equiv(g)
+    &&& m.phi_nodes_kept(g)
 }
 
 /// the postcondition of translate_function_extended
